@@ -14,7 +14,7 @@
 From Coq Require Import ZArith List Bool Lia.
 From Coq.Strings Require Import Byte String.
 From TS Require Import Bytes Codec State Prog Ops Interp StateLemmas InterpLemmas NopSpec StackLemmas
-  SigSpec ConfigSpec TaprootSpec.
+  SigSpec ConfigSpec TaprootSpec Asm.
 Import ListNotations.
 Local Open Scope nat_scope.
 Open Scope prog_scope.
@@ -419,3 +419,698 @@ Proof.
   - apply op_prog_no_sigext. exact H.
   - apply nse_NOP.
 Qed.
+
+(* ------------------------------------------------------------------------------------------ *)
+(* 5. A: the signature-related instructions = the plugins once, then the rest of the body     *)
+(* ------------------------------------------------------------------------------------------ *)
+
+(* what follows the plugin call in each instruction *)
+Definition get_message_body : prog unit :=
+  f <- read_u8 ;; m <- get_message_core f ;; put m.
+Definition check_sig_rest : prog unit :=
+  a <- read_u8 ;; check_sig_body a.
+Definition multisig_body : prog unit :=
+  a <- read_u8 ;; m <- read_u8 ;; n <- read_u8 ;;
+  vkeys <- repeat_get (nat_of n) ;; sigs <- repeat_get (nat_of m) ;;
+  confirmed <- ms_go a sigs vkeys [] ;;
+  put_bool (Nat.eqb (List.length confirmed) (List.length sigs)).
+Definition sign_body : prog unit :=
+  cfg <- config_ ;;
+  f <- read_u8 ;; seed <- get ;; vert (blen seed =? 32)%Z ;;
+  m <- get_message_core f ;; put m ;; message <- get ;;
+  sig <- prim1 PSign [seed; message] ;;
+  let sig := if (f =? 0)%Z then sig else sig ++ [z2b f] in
+  (if flagon cfg 9 then cache_raw (str "s") sig else Ret tt) ;;
+  put sig.
+Definition template_body : prog unit :=
+  f <- read_u8 ;; v <- ct_go [1;2;3;4;5;6;7;8]%Z f true ;; put_bool v.
+
+(* the instructions are literally "plugins ;; rest" *)
+Lemma OP_GET_MESSAGE_eq : OP_GET_MESSAGE = (run_sig_ext ;; get_message_body).       Proof. reflexivity. Qed.
+Lemma OP_CHECK_SIG_eq : OP_CHECK_SIG = (run_sig_ext ;; check_sig_rest).             Proof. reflexivity. Qed.
+Lemma OP_CHECK_MULTISIG_eq : OP_CHECK_MULTISIG = (run_sig_ext ;; multisig_body).    Proof. reflexivity. Qed.
+Lemma OP_SIGN_eq : OP_SIGN = (run_sig_ext ;; sign_body).                            Proof. reflexivity. Qed.
+
+(* flag 10 of the configuration: "run the signature extensions in OP_CHECK_TEMPLATE" (absent = yes) *)
+Definition flag10_on (cfg : config) : bool :=
+  match flag_get (c_flags cfg) (FKInt 10) with Some v => fval_truthy v | None => true end.
+
+Lemma OP_CHECK_TEMPLATE_eq :
+  OP_CHECK_TEMPLATE = (cfg <- config_ ;; when (flag10_on cfg) run_sig_ext ;; template_body).
+Proof. reflexivity. Qed.
+
+Lemma flag10_on_true cfg :
+  flag10_on cfg = true <->
+  flag_get (c_flags cfg) (FKInt 10) = None \/
+  exists v, flag_get (c_flags cfg) (FKInt 10) = Some v /\ fval_truthy v = true.
+Proof.
+  unfold flag10_on. destruct (flag_get (c_flags cfg) (FKInt 10)) as [v|]; split; intro H.
+  - right. exists v. split; [reflexivity|exact H].
+  - destruct H as [H|(v' & E & H)]; [discriminate H|]. injection E as ->. exact H.
+  - left. reflexivity.
+  - reflexivity.
+Qed.
+
+Lemma flag10_on_false cfg :
+  flag10_on cfg = false <->
+  exists v, flag_get (c_flags cfg) (FKInt 10) = Some v /\ fval_truthy v = false.
+Proof.
+  unfold flag10_on. destruct (flag_get (c_flags cfg) (FKInt 10)) as [v|]; split; intro H.
+  - exists v. split; [reflexivity|exact H].
+  - destruct H as (v' & E & H). injection E as ->. exact H.
+  - discriminate H.
+  - destruct H as (v' & E & _). discriminate E.
+Qed.
+
+(* OP_TAPROOT = operand ; root ; size check ; peek ; then one of two programs *)
+Definition tr_script_prog (root : bytes) : prog unit :=
+  pubkey <- get ;; script <- get ;;
+  hs <- prim1 PSha256 [script] ;; h <- prim1 PSha256 [pubkey ++ hs] ;;
+  scalar <- clamp_scalar h false ;; point <- derive_point scalar ;;
+  point <- aggregate_points [point; pubkey] ;;
+  if bytes_eqb point root then put script ;; eval_body else put [x00].
+Definition tr_key_prog (a root : bytes) : prog unit :=
+  put root ;; run_sig_ext ;; check_sig_body (be_to_Z a).
+
+Lemma OP_TAPROOT_eq :
+  OP_TAPROOT =
+    (a <- read 1 ;; root <- get ;; sert (blen root =? 32)%Z ;;
+     top <- act APeek ;;
+     if (blen top =? 32)%Z then tr_script_prog root else tr_key_prog a root).
+Proof. reflexivity. Qed.
+
+Section Once.
+Variable orc : oracle.
+Variable cfg : config.
+Variable run : nat -> state -> outcome unit.
+Notation interp := (interp orc cfg run).
+
+Lemma sigext_then A (body : prog A) fr st :
+  interp (run_sig_ext ;; body) fr st = interp body fr (sigext_log cfg st).
+Proof. rewrite interp_bind, run_sig_ext_spec. reflexivity. Qed.
+
+(* the unconditional forms of get_message_exact / check_sig_decomposed (ConfigSpec.v) *)
+Theorem get_message_decomposed fr st :
+  interp OP_GET_MESSAGE fr st = interp get_message_body fr (sigext_log cfg st).
+Proof. apply sigext_then. Qed.
+
+Theorem check_sig_decomposed' fr st :
+  interp OP_CHECK_SIG fr st = interp check_sig_rest fr (sigext_log cfg st).
+Proof. apply sigext_then. Qed.
+
+Theorem check_multisig_decomposed fr st :
+  interp OP_CHECK_MULTISIG fr st = interp multisig_body fr (sigext_log cfg st).
+Proof. apply sigext_then. Qed.
+
+Theorem sign_decomposed fr st :
+  interp OP_SIGN fr st = interp sign_body fr (sigext_log cfg st).
+Proof. apply sigext_then. Qed.
+
+(* OP_CHECK_TEMPLATE: flag 10 absent or truthy -> the plugins run once, first *)
+Theorem check_template_decomposed_on fr st :
+  flag10_on cfg = true ->
+  interp OP_CHECK_TEMPLATE fr st = interp template_body fr (sigext_log cfg st).
+Proof.
+  intro H. rewrite OP_CHECK_TEMPLATE_eq. unfold config_, act. cbn [bind Interp.interp step].
+  rewrite H. cbn [when]. apply sigext_then.
+Qed.
+
+(* flag 10 present and falsy -> they do not run *)
+Theorem check_template_decomposed_off fr st :
+  flag10_on cfg = false ->
+  interp OP_CHECK_TEMPLATE fr st = interp template_body fr st.
+Proof.
+  intro H. rewrite OP_CHECK_TEMPLATE_eq. unfold config_, act. cbn [bind Interp.interp step].
+  rewrite H. cbn [when bind]. reflexivity.
+Qed.
+
+(* the _VERIFY forms *)
+Lemma verify_after (p body : prog unit) st0 fr st :
+  interp p fr st = interp body fr st0 ->
+  interp (p ;; OP_VERIFY) fr st = interp (body ;; OP_VERIFY) fr st0.
+Proof. intro H. rewrite !interp_bind, H. reflexivity. Qed.
+
+Corollary check_sig_verify_decomposed fr st :
+  interp OP_CHECK_SIG_VERIFY fr st = interp (check_sig_rest ;; OP_VERIFY) fr (sigext_log cfg st).
+Proof. apply verify_after, check_sig_decomposed'. Qed.
+
+Corollary check_multisig_verify_decomposed fr st :
+  interp OP_CHECK_MULTISIG_VERIFY fr st = interp (multisig_body ;; OP_VERIFY) fr (sigext_log cfg st).
+Proof. apply verify_after, check_multisig_decomposed. Qed.
+
+Corollary check_template_verify_decomposed_on fr st :
+  flag10_on cfg = true ->
+  interp OP_CHECK_TEMPLATE_VERIFY fr st = interp (template_body ;; OP_VERIFY) fr (sigext_log cfg st).
+Proof. intro H. apply verify_after, check_template_decomposed_on, H. Qed.
+
+Corollary check_template_verify_decomposed_off fr st :
+  flag10_on cfg = false ->
+  interp OP_CHECK_TEMPLATE_VERIFY fr st = interp (template_body ;; OP_VERIFY) fr st.
+Proof. intro H. apply verify_after, check_template_decomposed_off, H. Qed.
+
+(* OP_TAPROOT, exactly: what happens before the choice of the path ... *)
+Theorem taproot_exec fr st :
+  interp OP_TAPROOT fr st =
+    if List.length (to_data (cur fr st)) <? fr_ptr fr + 1 then Raised ScriptExecutionError fr st
+    else
+      let a := firstn 1 (skipn (fr_ptr fr) (to_data (cur fr st))) in
+      match st_stack st with
+      | [] => Raised IndexError (adv fr 1) st
+      | root :: s =>
+        if (blen root =? 32)%Z then
+          match s with
+          | [] => Raised IndexError (adv fr 1) (with_stack st [])
+          | top :: _ =>
+            if (blen top =? 32)%Z then interp (tr_script_prog root) (adv fr 1) (with_stack st s)
+            else interp (tr_key_prog a root) (adv fr 1) (with_stack st s)
+          end
+        else Raised ScriptExecutionError (adv fr 1) (with_stack st s)
+      end.
+Proof.
+  rewrite OP_TAPROOT_eq. unfold read, get, sert, act. cbn [bind Interp.interp step].
+  change (Z.to_nat 1) with 1.
+  destruct (List.length (to_data (cur fr st)) <? fr_ptr fr + 1); [reflexivity|].
+  cbn [bind Interp.interp step]. cbv zeta.
+  destruct (st_stack st) as [|root s]; [reflexivity|].
+  destruct (blen root =? 32)%Z; cbn [bind Interp.interp step st_stack with_stack]; [|reflexivity].
+  destruct s as [|top s']; [reflexivity|].
+  destruct (blen top =? 32)%Z; reflexivity.
+Qed.
+
+(* ... and the key path: the root goes back on the stack, the plugins run ONCE, then the signature
+   check body -- the same body as OP_CHECK_SIG's, which does not run them again *)
+Theorem tr_key_prog_decomposed a root fr st :
+  interp (tr_key_prog a root) fr st =
+    if (c_max_item_size cfg <? List.length root) || (c_max_items cfg <=? List.length (st_stack st))
+    then Raised ScriptExecutionError fr st
+    else interp (check_sig_body (be_to_Z a)) fr (sigext_log cfg (with_stack st (root :: st_stack st))).
+Proof.
+  unfold tr_key_prog, put, act. cbn [bind Interp.interp step].
+  destruct (c_max_item_size cfg <? List.length root); [reflexivity|].
+  destruct (c_max_items cfg <=? List.length (st_stack st)); [reflexivity|].
+  cbn [orb]. apply sigext_then.
+Qed.
+
+(* ------------------------------------------------------------------------------------------ *)
+(* 6. B: never twice                                                                          *)
+(* ------------------------------------------------------------------------------------------ *)
+
+(* the outcome's log has the same plugin events as [st]'s *)
+Definition same_plugins {A} (st : state) (o : outcome A) : Prop :=
+  match o with
+  | Done _ _ st' | Raised _ _ st' =>
+    sigext_count (st_log st') = sigext_count (st_log st) /\
+    sigext_ids (st_log st') = sigext_ids (st_log st)
+  | _ => True
+  end.
+
+(* the outcome's log has the plugin events of [st]'s plus every configured plugin exactly once,
+   in configuration order (logs are newest first) *)
+Definition plugins_once {A} (st : state) (o : outcome A) : Prop :=
+  match o with
+  | Done _ _ st' | Raised _ _ st' =>
+    sigext_count (st_log st') = sigext_count (st_log st) + List.length (c_sigext cfg) /\
+    sigext_ids (st_log st') = rev (c_sigext cfg) ++ sigext_ids (st_log st)
+  | _ => True
+  end.
+
+Lemma same_plugins_intro A st (o : outcome A) :
+  keeps _ sigext_count st o -> keeps _ sigext_ids st o -> same_plugins st o.
+Proof. destruct o; cbn [keeps same_plugins]; auto. Qed.
+
+Lemma plugins_once_intro A st (o : outcome A) :
+  keeps _ sigext_count (sigext_log cfg st) o -> keeps _ sigext_ids (sigext_log cfg st) o ->
+  plugins_once st o.
+Proof.
+  destruct o; cbn [keeps plugins_once]; auto;
+    rewrite sigext_count_sigext_log, sigext_ids_sigext_log; auto.
+Qed.
+
+Lemma plugins_once_same_log A s1 s2 (o : outcome A) :
+  st_log s1 = st_log s2 -> plugins_once s1 o -> plugins_once s2 o.
+Proof. intros E H. destruct o; cbn [plugins_once] in *; try exact I; rewrite <- E; exact H. Qed.
+
+Lemma same_plugins_same_log A s1 s2 (o : outcome A) :
+  st_log s1 = st_log s2 -> same_plugins s1 o -> same_plugins s2 o.
+Proof. intros E H. destruct o; cbn [same_plugins] in *; try exact I; rewrite <- E; exact H. Qed.
+
+(* a program without plugin event and without sub-tape action: no plugin event, in every outcome,
+   whatever the runner *)
+Theorem local_same_plugins A (p : prog A) :
+  no_sigext_local p -> forall fr st, same_plugins st (interp p fr st).
+Proof.
+  intros Hp fr st. apply same_plugins_intro.
+  - apply (no_sigext_local_sound _ sigext_count sigext_count_other); exact Hp.
+  - apply (no_sigext_local_sound _ sigext_ids sigext_ids_other); exact Hp.
+Qed.
+
+(* with sub-tape actions: relative to the runner *)
+Theorem no_sigext_count_sound A (p : prog A) :
+  no_sigext p -> run_keeps _ sigext_count run ->
+  forall fr st, keeps _ sigext_count st (interp p fr st).
+Proof. apply (no_sigext_sound _ sigext_count sigext_count_other). Qed.
+
+Theorem no_sigext_ids_sound A (p : prog A) :
+  no_sigext p -> run_keeps _ sigext_ids run ->
+  forall fr st, keeps _ sigext_ids st (interp p fr st).
+Proof. apply (no_sigext_sound _ sigext_ids sigext_ids_other). Qed.
+
+(* the rests of the bodies *)
+Lemma get_message_body_local : no_sigext_local get_message_body.   Proof. nsep. Qed.
+Lemma check_sig_body_local a : no_sigext_local (check_sig_body a). Proof. nsep. Qed.
+Lemma check_sig_rest_local : no_sigext_local check_sig_rest.       Proof. nsep. Qed.
+Lemma ms_find_local a sig keys : no_sigext_local (ms_find a sig keys). Proof. apply nse_ms_find. Qed.
+Lemma ms_go_local a sigs keys confirmed : no_sigext_local (ms_go a sigs keys confirmed).
+Proof. apply nse_ms_go. Qed.
+Lemma multisig_body_local : no_sigext_local multisig_body.         Proof. nsep. Qed.
+Lemma sign_body_local : no_sigext_local sign_body.                 Proof. nsep. Qed.
+Lemma template_body_local : no_sigext_local template_body.         Proof. nsep. Qed.
+Lemma then_verify_local (p : prog unit) : no_sigext_local p -> no_sigext_local (p ;; OP_VERIFY).
+Proof. intro H. apply nse_bind; [exact H|intros _; apply nse_OP_VERIFY]. Qed.
+
+Theorem get_message_body_never_twice fr st : same_plugins st (interp get_message_body fr st).
+Proof. apply local_same_plugins, get_message_body_local. Qed.
+
+Theorem check_sig_body_never_twice a fr st : same_plugins st (interp (check_sig_body a) fr st).
+Proof. apply local_same_plugins, check_sig_body_local. Qed.
+
+(* the inner signature checks of OP_CHECK_MULTISIG, for any signatures and keys *)
+Theorem ms_go_never_twice a sigs keys confirmed fr st :
+  same_plugins st (interp (ms_go a sigs keys confirmed) fr st).
+Proof. apply local_same_plugins, ms_go_local. Qed.
+
+Theorem multisig_body_never_twice fr st : same_plugins st (interp multisig_body fr st).
+Proof. apply local_same_plugins, multisig_body_local. Qed.
+
+Theorem sign_body_never_twice fr st : same_plugins st (interp sign_body fr st).
+Proof. apply local_same_plugins, sign_body_local. Qed.
+
+Theorem template_body_never_twice fr st : same_plugins st (interp template_body fr st).
+Proof. apply local_same_plugins, template_body_local. Qed.
+
+(* "plugins once, then a plugin-free rest" gives "exactly once" *)
+Lemma once_of_decomposition (p body : prog unit) fr st :
+  no_sigext_local body ->
+  interp p fr st = interp body fr (sigext_log cfg st) ->
+  plugins_once st (interp p fr st).
+Proof.
+  intros Hb E. rewrite E. apply plugins_once_intro.
+  - apply (no_sigext_local_sound _ sigext_count sigext_count_other); exact Hb.
+  - apply (no_sigext_local_sound _ sigext_ids sigext_ids_other); exact Hb.
+Qed.
+
+(* the instructions that always run the plugins *)
+Definition plugin_instructions : list (prog unit) :=
+  [ OP_GET_MESSAGE; OP_CHECK_SIG; OP_CHECK_SIG_VERIFY; OP_CHECK_MULTISIG; OP_CHECK_MULTISIG_VERIFY; OP_SIGN ].
+
+(* MAIN: each of them, run once from any frame and state, under any runner, adds exactly the
+   configured plugins, once each -- when it ends normally and when it raises, wherever it raises *)
+Theorem sig_instruction_runs_plugins_exactly_once (p : prog unit) fr st :
+  In p plugin_instructions -> plugins_once st (interp p fr st).
+Proof.
+  unfold plugin_instructions. cbn [In].
+  intros [<-|[<-|[<-|[<-|[<-|[<-|[]]]]]]].
+  - eapply once_of_decomposition; [exact get_message_body_local|apply get_message_decomposed].
+  - eapply once_of_decomposition; [exact check_sig_rest_local|apply check_sig_decomposed'].
+  - eapply once_of_decomposition; [exact (then_verify_local _ check_sig_rest_local)|apply check_sig_verify_decomposed].
+  - eapply once_of_decomposition; [exact multisig_body_local|apply check_multisig_decomposed].
+  - eapply once_of_decomposition; [exact (then_verify_local _ multisig_body_local)|apply check_multisig_verify_decomposed].
+  - eapply once_of_decomposition; [exact sign_body_local|apply sign_decomposed].
+Qed.
+
+Corollary get_message_runs_plugins_exactly_once fr st : plugins_once st (interp OP_GET_MESSAGE fr st).
+Proof. apply sig_instruction_runs_plugins_exactly_once. unfold plugin_instructions; cbn [In]. left; reflexivity. Qed.
+Corollary check_sig_runs_plugins_exactly_once fr st : plugins_once st (interp OP_CHECK_SIG fr st).
+Proof. apply sig_instruction_runs_plugins_exactly_once. unfold plugin_instructions; cbn [In]. do 1 right; left; reflexivity. Qed.
+Corollary check_sig_verify_runs_plugins_exactly_once fr st : plugins_once st (interp OP_CHECK_SIG_VERIFY fr st).
+Proof. apply sig_instruction_runs_plugins_exactly_once. unfold plugin_instructions; cbn [In]. do 2 right; left; reflexivity. Qed.
+Corollary check_multisig_runs_plugins_exactly_once fr st : plugins_once st (interp OP_CHECK_MULTISIG fr st).
+Proof. apply sig_instruction_runs_plugins_exactly_once. unfold plugin_instructions; cbn [In]. do 3 right; left; reflexivity. Qed.
+Corollary check_multisig_verify_runs_plugins_exactly_once fr st :
+  plugins_once st (interp OP_CHECK_MULTISIG_VERIFY fr st).
+Proof. apply sig_instruction_runs_plugins_exactly_once. unfold plugin_instructions; cbn [In]. do 4 right; left; reflexivity. Qed.
+Corollary sign_runs_plugins_exactly_once fr st : plugins_once st (interp OP_SIGN fr st).
+Proof. apply sig_instruction_runs_plugins_exactly_once. unfold plugin_instructions; cbn [In]. do 5 right; left; reflexivity. Qed.
+
+(* OP_CHECK_TEMPLATE(_VERIFY): once when flag 10 is absent or truthy, not at all when it is falsy *)
+Theorem check_template_runs_plugins_exactly_once (p : prog unit) fr st :
+  In p [OP_CHECK_TEMPLATE; OP_CHECK_TEMPLATE_VERIFY] ->
+  if flag10_on cfg then plugins_once st (interp p fr st) else same_plugins st (interp p fr st).
+Proof.
+  cbn [In]. intros [<-|[<-|[]]]; destruct (flag10_on cfg) eqn:F.
+  - eapply once_of_decomposition; [exact template_body_local|apply check_template_decomposed_on, F].
+  - rewrite check_template_decomposed_off by exact F. apply template_body_never_twice.
+  - eapply once_of_decomposition; [exact (then_verify_local _ template_body_local)|apply check_template_verify_decomposed_on, F].
+  - rewrite check_template_verify_decomposed_off by exact F.
+    apply local_same_plugins, then_verify_local, template_body_local.
+Qed.
+
+(* ---- OP_TAPROOT ---- *)
+
+Lemma body_after_plugins A (body : prog A) fr st :
+  no_sigext_local body -> plugins_once st (interp body fr (sigext_log cfg st)).
+Proof.
+  intro Hb. apply plugins_once_intro.
+  - apply (no_sigext_local_sound _ sigext_count sigext_count_other); exact Hb.
+  - apply (no_sigext_local_sound _ sigext_ids sigext_ids_other); exact Hb.
+Qed.
+
+(* the key-path program: no plugin if the root cannot be pushed back, else exactly once *)
+Lemma tr_key_prog_plugins a root fr st :
+  match interp (tr_key_prog a root) fr st with
+  | Done _ _ _ as o => plugins_once st o
+  | Raised _ _ _ as o => same_plugins st o \/ plugins_once st o
+  | _ => True
+  end.
+Proof.
+  rewrite tr_key_prog_decomposed.
+  destruct (_ || _); [left; split; reflexivity|].
+  pose proof (body_after_plugins unit (check_sig_body (be_to_Z a)) fr
+                (with_stack st (root :: st_stack st)) (check_sig_body_local _)) as H.
+  apply (plugins_once_same_log _ _ st) in H; [|reflexivity].
+  destruct (interp _ fr (sigext_log cfg _)); [exact H|right; exact H|exact I|exact I].
+Qed.
+
+(* key path (the item under the root is not 32 bytes long): a normal end has run the plugins exactly
+   once; a raise happened either before the plugin call (operand missing, root not 32 bytes, root
+   cannot be pushed back: no plugin ran) or inside the signature check (they ran exactly once) *)
+Theorem taproot_key_path_plugins fr st root top rest :
+  st_stack st = root :: top :: rest -> (blen top =? 32)%Z = false ->
+  match interp OP_TAPROOT fr st with
+  | Done _ _ _ as o => plugins_once st o
+  | Raised _ _ _ as o => same_plugins st o \/ plugins_once st o
+  | _ => True
+  end.
+Proof.
+  intros Hs Ht. rewrite taproot_exec. cbv zeta.
+  destruct (_ <? _); [left; split; reflexivity|].
+  rewrite Hs. destruct (blen root =? 32)%Z; [|left; split; reflexivity].
+  rewrite Ht.
+  pose proof (tr_key_prog_plugins (firstn 1 (skipn (fr_ptr fr) (to_data (cur fr st)))) root (adv fr 1)
+                (with_stack st (top :: rest))) as H.
+  destruct (interp (tr_key_prog _ root) (adv fr 1) (with_stack st (top :: rest))); exact H.
+Qed.
+
+(* under the preconditions of TaprootSpec.taproot_key_path (operand present, 32-byte root, room to push
+   it back): exactly once, in every outcome *)
+Theorem taproot_key_path_plugins_exactly_once fr st a tail root item rest :
+  data_at fr st = a :: tail ->
+  st_stack st = root :: item :: rest ->
+  List.length root = 32 -> List.length item <> 32 ->
+  List.length rest + 2 <= c_max_items cfg -> 32 <= c_max_item_size cfg ->
+  plugins_once st (interp OP_TAPROOT fr st).
+Proof.
+  intros Hd Hs Lr Li Hsp Hsz.
+  rewrite (taproot_key_path orc cfg run fr st a tail root item rest Hd Hs Lr Li Hsp Hsz).
+  rewrite <- Hs. rewrite with_stack_same.
+  apply body_after_plugins, check_sig_body_local.
+Qed.
+
+(* script path: everything but the committed script runs no plugin; the script is the runner's *)
+Lemma tr_script_prog_no_sigext root : no_sigext (tr_script_prog root).
+Proof. nsep. Qed.
+
+Theorem taproot_script_path_plugins_count fr st root top rest :
+  st_stack st = root :: top :: rest -> (blen top =? 32)%Z = true ->
+  run_keeps _ sigext_count run ->
+  keeps _ sigext_count st (interp OP_TAPROOT fr st).
+Proof.
+  intros Hs Ht Hrun. rewrite taproot_exec. cbv zeta.
+  destruct (_ <? _); [reflexivity|].
+  rewrite Hs. destruct (blen root =? 32)%Z; [|reflexivity].
+  rewrite Ht.
+  apply (keeps_same_log _ _ _ (with_stack st (top :: rest)) st); [reflexivity|].
+  apply no_sigext_count_sound; [apply tr_script_prog_no_sigext|exact Hrun].
+Qed.
+
+Theorem taproot_script_path_plugins_ids fr st root top rest :
+  st_stack st = root :: top :: rest -> (blen top =? 32)%Z = true ->
+  run_keeps _ sigext_ids run ->
+  keeps _ sigext_ids st (interp OP_TAPROOT fr st).
+Proof.
+  intros Hs Ht Hrun. rewrite taproot_exec. cbv zeta.
+  destruct (_ <? _); [reflexivity|].
+  rewrite Hs. destruct (blen root =? 32)%Z; [|reflexivity].
+  rewrite Ht.
+  apply (keeps_same_log _ _ _ (with_stack st (top :: rest)) st); [reflexivity|].
+  apply no_sigext_ids_sound; [apply tr_script_prog_no_sigext|exact Hrun].
+Qed.
+
+(* any state: OP_TAPROOT itself runs the plugins at most once (zero times or exactly once) *)
+Theorem taproot_at_most_once fr st :
+  run_keeps _ sigext_count run ->
+  match interp OP_TAPROOT fr st with
+  | Done _ _ st' | Raised _ _ st' =>
+    sigext_count (st_log st') = sigext_count (st_log st) \/
+    sigext_count (st_log st') = sigext_count (st_log st) + List.length (c_sigext cfg)
+  | _ => True
+  end.
+Proof.
+  intro Hrun.
+  destruct (st_stack st) as [|root [|top rest]] eqn:Hs.
+  - rewrite taproot_exec, Hs. cbv zeta. destruct (_ <? _); left; reflexivity.
+  - rewrite taproot_exec, Hs. cbv zeta. destruct (_ <? _); [left; reflexivity|].
+    destruct (blen root =? 32)%Z; left; reflexivity.
+  - destruct (blen top =? 32)%Z eqn:Ht.
+    + pose proof (taproot_script_path_plugins_count fr st root top rest Hs Ht Hrun) as H.
+      destruct (interp OP_TAPROOT fr st); try exact I; left; exact H.
+    + pose proof (taproot_key_path_plugins fr st root top rest Hs Ht) as H.
+      destruct (interp OP_TAPROOT fr st); try exact I.
+      * right. apply H.
+      * destruct H as [H|H]; [left|right]; apply H.
+Qed.
+
+(* ------------------------------------------------------------------------------------------ *)
+(* 7. C, semantically: a plugin event appears only when a signature-related instruction runs  *)
+(* ------------------------------------------------------------------------------------------ *)
+
+(* every other assigned opcode, block instructions included: the only plugin events it can add are
+   those of the sub-tapes it runs *)
+Theorem other_instructions_run_no_plugin (o : opcode) fr st :
+  is_sig_op o = false -> run_keeps _ sigext_count run ->
+  keeps _ sigext_count st (interp (op_prog o) fr st).
+Proof. intros Ho Hrun. apply no_sigext_count_sound; [apply op_prog_no_sigext, Ho|exact Hrun]. Qed.
+
+Theorem other_instructions_run_no_plugin_ids (o : opcode) fr st :
+  is_sig_op o = false -> run_keeps _ sigext_ids run ->
+  keeps _ sigext_ids st (interp (op_prog o) fr st).
+Proof. intros Ho Hrun. apply no_sigext_ids_sound; [apply op_prog_no_sigext, Ho|exact Hrun]. Qed.
+
+(* the non-block ones: none at all, whatever the runner *)
+Theorem non_block_instructions_run_no_plugin (o : opcode) fr st :
+  is_sig_op o = false -> is_block_op o = false ->
+  same_plugins st (interp (op_prog o) fr st).
+Proof. intros H1 H2. apply local_same_plugins, op_prog_no_sigext_local; assumption. Qed.
+
+(* the unassigned codes (NOP) *)
+Theorem nop_runs_no_plugin fr st : same_plugins st (interp NOP fr st).
+Proof. apply local_same_plugins, nse_NOP. Qed.
+
+(* one fetch of run_tape: if the number of plugin events changed although the sub-tapes kept it, the
+   code is one of the nine signature-related opcodes *)
+Theorem plugin_event_only_from_sig_instruction (code : nat) fr st :
+  run_keeps _ sigext_count run ->
+  ~ keeps _ sigext_count st (interp (dispatch code) fr st) ->
+  exists o, opcode_of_nat code = Some o /\ is_sig_op o = true.
+Proof.
+  intros Hrun Hn. unfold dispatch in Hn. destruct (opcode_of_nat code) as [o|].
+  - exists o. split; [reflexivity|]. destruct (is_sig_op o) eqn:E; [reflexivity|].
+    exfalso. apply Hn. apply other_instructions_run_no_plugin; assumption.
+  - exfalso. apply Hn. apply no_sigext_count_sound; [apply nse_NOP|exact Hrun].
+Qed.
+
+End Once.
+
+(* ------------------------------------------------------------------------------------------ *)
+(* 8. Examples: two plugins, ids 0 and 1                                                      *)
+(* ------------------------------------------------------------------------------------------ *)
+
+
+Definition ex_cfg : config :=
+  {| c_max_items := 16; c_max_item_size := 128; c_limit := 8%Z; c_flags := []; c_sigext := [0; 1];
+     c_ctplugins := []; c_contracts := []; c_now := 0%Z |}.
+(* flag 10 present and false: OP_CHECK_TEMPLATE does not run the plugins *)
+Definition ex_cfg_off : config :=
+  {| c_max_items := 16; c_max_item_size := 128; c_limit := 8%Z; c_flags := [(FKInt 10, FVBool false)];
+     c_sigext := [0; 1]; c_ctplugins := []; c_contracts := []; c_now := 0%Z |}.
+(* verification says [yes]; signing gives 64 bytes *)
+Definition ex_orc (yes : bool) : oracle := fun p _ =>
+  match p with
+  | PVerify => OOk [[if yes then x01 else x00]]
+  | PSign => OOk [repeat x02 64]
+  | _ => OErr OtherError
+  end.
+Definition ex_run : nat -> state -> outcome unit := fun _ _ => OutOfFuel.
+Definition ex_st (data : bytes) (stack : list bytes) : state :=
+  {| st_stack := stack; st_cache := [];
+     st_tapes := [{| to_data := data; to_count := 0%Z; to_defs := 0 |}];
+     st_defs := [[]]; st_log := []; st_rand := 0%Z |}.
+Definition fr0 : frame := {| fr_tid := 0; fr_ptr := 0 |}.
+
+Definition k1 : bytes := repeat x11 32.
+Definition k2 : bytes := repeat x12 32.
+Definition s1 : bytes := repeat x21 64.
+Definition s2 : bytes := repeat x22 64.
+
+Definition log_and_stack {A} (o : outcome A) : option (list event * list bytes) :=
+  match o with Done _ _ st' | Raised _ _ st' => Some (st_log st', st_stack st') | _ => None end.
+
+(* OP_CHECK_MULTISIG, 2 signatures x 2 keys, no signature verifies: four inner signature checks,
+   each plugin once *)
+Example ex_multisig_2x2_none :
+  log_and_stack (interp (ex_orc false) ex_cfg ex_run OP_CHECK_MULTISIG fr0
+                   (ex_st [x00; x02; x02] [k1; k2; s1; s2]))
+  = Some ([EvSigExt 1; EvSigExt 0], [[x00]]).
+Proof. vm_compute. reflexivity. Qed.
+
+(* ... every signature verifies: two inner checks, each plugin once *)
+Example ex_multisig_2x2_all :
+  log_and_stack (interp (ex_orc true) ex_cfg ex_run OP_CHECK_MULTISIG fr0
+                   (ex_st [x00; x02; x02] [k1; k2; s1; s2]))
+  = Some ([EvSigExt 1; EvSigExt 0], [[xff]]).
+Proof. vm_compute. reflexivity. Qed.
+
+(* ... a raise inside (keys of the wrong length): still each plugin once *)
+Example ex_multisig_raises :
+  match interp (ex_orc true) ex_cfg ex_run OP_CHECK_MULTISIG fr0 (ex_st [x00; x02; x02] [s1; k2; s1; s2]) with
+  | Raised ValueError _ st' => st_log st' = [EvSigExt 1; EvSigExt 0]
+  | _ => False
+  end.
+Proof. vm_compute. reflexivity. Qed.
+
+Example ex_sign :
+  log_and_stack (interp (ex_orc true) ex_cfg ex_run OP_SIGN fr0 (ex_st [x00] [k1]))
+  = Some ([EvSigExt 1; EvSigExt 0], [repeat x02 64]).
+Proof. vm_compute. reflexivity. Qed.
+
+Example ex_check_template_on :
+  log_and_stack (interp (ex_orc true) ex_cfg ex_run OP_CHECK_TEMPLATE fr0 (ex_st [x00] []))
+  = Some ([EvSigExt 1; EvSigExt 0], [[xff]]).
+Proof. vm_compute. reflexivity. Qed.
+
+Example ex_check_template_off :
+  log_and_stack (interp (ex_orc true) ex_cfg_off ex_run OP_CHECK_TEMPLATE fr0 (ex_st [x00] []))
+  = Some ([], [[xff]]).
+Proof. vm_compute. reflexivity. Qed.
+
+(* OP_TAPROOT key path (the item under the 32-byte root is a 64-byte signature) *)
+Example ex_taproot_key_path :
+  log_and_stack (interp (ex_orc true) ex_cfg ex_run OP_TAPROOT fr0 (ex_st [x00] [k1; s1]))
+  = Some ([EvSigExt 1; EvSigExt 0], [[xff]]).
+Proof. vm_compute. reflexivity. Qed.
+
+(* whole scripts through run_script: the multisig at top level, and one nesting level down (inside
+   an OP_IF body): each plugin exactly once *)
+Definition ex_pushes : list instr :=
+  [IVar1 O_PUSH1 s2; IVar1 O_PUSH1 s1; IVar1 O_PUSH1 k2; IVar1 O_PUSH1 k1].
+Definition ex_ms : instr := IMultisig O_CHECK_MULTISIG x00 x02 x02.
+
+Definition script_log (o : outcome unit) : option (list event * list bytes) := log_and_stack o.
+
+Example ex_script_top :
+  script_log (run_script (ex_orc false) ex_cfg 10 (encode (ex_pushes ++ [ex_ms])) [])
+  = Some ([EvSigExt 1; EvSigExt 0], [[x00]]).
+Proof. vm_compute. reflexivity. Qed.
+
+Example ex_script_nested :
+  script_log (run_script (ex_orc false) ex_cfg 10 (encode (ex_pushes ++ [IOp0 O_TRUE; IIf [ex_ms]])) [])
+  = Some ([EvSigExt 1; EvSigExt 0], [[x00]]).
+Proof. vm_compute. reflexivity. Qed.
+
+(* two signature instructions: the plugins run once for each *)
+Example ex_script_two :
+  script_log (run_script (ex_orc true) ex_cfg 10
+                (encode (ex_pushes ++ [ex_ms; IVar1 O_PUSH1 k1; IOp1 O_SIGN x00])) [])
+  = Some ([EvSigExt 1; EvSigExt 0; EvSigExt 1; EvSigExt 0], [repeat x02 64; [xff]]).
+Proof. vm_compute. reflexivity. Qed.
+
+(* ------------------------------------------------------------------------------------------ *)
+(* 9. The list of signature-related opcodes is tight                                          *)
+(* ------------------------------------------------------------------------------------------ *)
+
+Lemma ex_run_keeps : run_keeps _ sigext_count ex_run.
+Proof. intros tid s. exact I. Qed.
+
+(* none of the nine programs satisfies the judgement: with the configuration above each of them adds
+   plugin events (from the empty tape and stack for the first eight, on the key path for OP_TAPROOT) *)
+Theorem sig_ops_not_no_sigext (o : opcode) : is_sig_op o = true -> ~ no_sigext (op_prog o).
+Proof.
+  intros Ho Hn.
+  pose proof (no_sigext_count_sound (ex_orc true) ex_cfg ex_run unit (op_prog o) Hn ex_run_keeps fr0
+                (ex_st [x00] [k1; s1])) as H.
+  destruct o; try discriminate Ho; vm_compute in H; discriminate H.
+Qed.
+
+(* so: the judgement holds of the program of an opcode exactly when it is not signature-related *)
+Corollary no_sigext_iff (o : opcode) : no_sigext (op_prog o) <-> is_sig_op o = false.
+Proof.
+  split.
+  - intro H. destruct (is_sig_op o) eqn:E; [|reflexivity]. exfalso. exact (sig_ops_not_no_sigext o E H).
+  - apply op_prog_no_sigext.
+Qed.
+
+(* ------------------------------------------------------------------------------------------ *)
+(* 10. At every nesting level                                                                 *)
+(* ------------------------------------------------------------------------------------------ *)
+
+(* the theorems above hold for every runner; run_tape interprets the instructions of a tape at any
+   depth with the runner "run_tape with less fuel" and the same oracle and configuration
+   (ConfigSpec.sub_tapes_same_config), so in particular: *)
+Corollary sig_instruction_once_at_every_level orc cfg f (p : prog unit) fr st :
+  In p plugin_instructions ->
+  plugins_once cfg st (interp orc cfg (fun t s => run_tape orc cfg f t 0 s) p fr st).
+Proof. apply sig_instruction_runs_plugins_exactly_once. Qed.
+
+Print Assumptions nse_sound.
+Print Assumptions no_sigext_sound.
+Print Assumptions no_sigext_local_sound.
+Print Assumptions op_prog_nse.
+Print Assumptions op_prog_no_sigext.
+Print Assumptions op_prog_no_sigext_local.
+Print Assumptions dispatch_no_sigext.
+Print Assumptions get_message_decomposed.
+Print Assumptions check_sig_decomposed'.
+Print Assumptions check_multisig_decomposed.
+Print Assumptions sign_decomposed.
+Print Assumptions check_template_decomposed_on.
+Print Assumptions check_template_decomposed_off.
+Print Assumptions check_sig_verify_decomposed.
+Print Assumptions check_multisig_verify_decomposed.
+Print Assumptions check_template_verify_decomposed_on.
+Print Assumptions check_template_verify_decomposed_off.
+Print Assumptions taproot_exec.
+Print Assumptions tr_key_prog_decomposed.
+Print Assumptions local_same_plugins.
+Print Assumptions no_sigext_count_sound.
+Print Assumptions no_sigext_ids_sound.
+Print Assumptions get_message_body_never_twice.
+Print Assumptions check_sig_body_never_twice.
+Print Assumptions ms_go_never_twice.
+Print Assumptions multisig_body_never_twice.
+Print Assumptions sign_body_never_twice.
+Print Assumptions template_body_never_twice.
+Print Assumptions sig_instruction_runs_plugins_exactly_once.
+Print Assumptions get_message_runs_plugins_exactly_once.
+Print Assumptions check_sig_runs_plugins_exactly_once.
+Print Assumptions check_sig_verify_runs_plugins_exactly_once.
+Print Assumptions check_multisig_runs_plugins_exactly_once.
+Print Assumptions check_multisig_verify_runs_plugins_exactly_once.
+Print Assumptions sign_runs_plugins_exactly_once.
+Print Assumptions check_template_runs_plugins_exactly_once.
+Print Assumptions taproot_key_path_plugins.
+Print Assumptions taproot_key_path_plugins_exactly_once.
+Print Assumptions taproot_script_path_plugins_count.
+Print Assumptions taproot_script_path_plugins_ids.
+Print Assumptions taproot_at_most_once.
+Print Assumptions other_instructions_run_no_plugin.
+Print Assumptions other_instructions_run_no_plugin_ids.
+Print Assumptions non_block_instructions_run_no_plugin.
+Print Assumptions nop_runs_no_plugin.
+Print Assumptions plugin_event_only_from_sig_instruction.
+Print Assumptions sig_ops_not_no_sigext.
+Print Assumptions no_sigext_iff.
+Print Assumptions sig_instruction_once_at_every_level.
+Print Assumptions ex_multisig_2x2_none.
+Print Assumptions ex_multisig_2x2_all.
+Print Assumptions ex_sign.
+Print Assumptions ex_script_nested.
